@@ -107,3 +107,9 @@ def probes(case, layers, view, img):
 def req_meta_bytes(cfg, img, off, ln):
     ncl = (cfg["nsectors"] + cfg["cluster"] - 1) // cfg["cluster"]
     return 4 * ncl + 64
+
+
+def meta_model(cfg):
+    ncl = (cfg['nsectors'] + cfg['cluster'] - 1) // cfg['cluster']
+    return (1 << 62, 0, 4 * ncl + 64)
+    # (guest bytes covered by one second-level table, bytes of one such table, bytes of the top-level table read lazily)
